@@ -347,8 +347,8 @@ func Apply(o, d *Obj, c Call) []string {
 	select {
 	case r := <-ch:
 		return r
-	case <-time.After(3 * time.Second):
-		return []string{"DEADLOCK", "call did not return within 3s"}
+	case <-time.After(time.Second):
+		return []string{"DEADLOCK", "call did not return within 1s"}
 	}
 }
 
